@@ -828,6 +828,152 @@ func goABIDec(a []string) (res string) {
 	return "ok"
 }
 
+// ---------------------------------------------------------------------------------------- seeds found in real blocks
+
+// realCells: the cells of the repository's real blocks (tlb/testdata), smallest files first
+func realCells() []*boc.Cell {
+	var out []*boc.Cell
+	seen := map[*boc.Cell]bool{}
+	var walk func(c *boc.Cell)
+	walk = func(c *boc.Cell) {
+		if seen[c] || len(out) >= 6000 {
+			return
+		}
+		seen[c] = true
+		out = append(out, c)
+		for _, r := range c.Refs() {
+			walk(r)
+		}
+	}
+	for _, f := range []string{"block-4", "block-5", "block-3", "block-1"} {
+		b, err := os.ReadFile(filepath.Join(repoDir(), "tlb", "testdata", f, "block.bin"))
+		if err != nil {
+			continue
+		}
+		roots, err := boc.DeserializeBoc(b)
+		if err != nil {
+			continue
+		}
+		for _, r := range roots {
+			walk(r)
+		}
+	}
+	return out
+}
+
+func tryDecode(t reflect.Type, c *boc.Cell) (ok bool) {
+	defer func() {
+		if r := recover(); r != nil {
+			ok = false
+		}
+	}()
+	c.ResetCounters()
+	v := reflect.New(t)
+	if err := tlb.NewDecoder().Unmarshal(c, v.Interface()); err != nil {
+		return false
+	}
+	// a seed is interesting when the decoder consumed the cell completely
+	return c.BitsAvailableForRead() == 0 && c.RefsAvailableForRead() == 0
+}
+
+// genRealSeeds: for the types no random value could be encoded for, look for subtrees of real blocks that decode
+// completely into the type; damage those (explicit lines, the tables can be large)
+func (gc *genCtx) genRealSeeds(types []regType) {
+	g := gc.g
+	cells := realCells()
+	g.Counters["real_block_cells"] = len(cells)
+	found := 0
+	for _, r := range types {
+		if trivialTLB(r.T) {
+			continue
+		}
+		n := 0
+		for _, c := range cells {
+			if n >= 2 {
+				break
+			}
+			if c.BitSize() == 0 && c.RefsSize() == 0 {
+				continue
+			}
+			if !tryDecode(r.T, c) {
+				continue
+			}
+			limit := 600
+			c.ResetCounters()
+			rows := cellToRows(c, &limit)
+			if rows == nil {
+				continue
+			}
+			n++
+			g.Emit("go.tlb.one", r.Name, "1", h.TableString(rows))
+			for k := 0; k < g.Scale(30, 500); k++ {
+				m := damage(rows, g.Rng.Intn(nDamageKinds), g.Rng.Intn(len(rows)), g.Rng.Intn(1024), g.Rng)
+				g.Emit("go.tlb.one", r.Name, strconv.Itoa(g.Rng.Intn(4)), h.TableString(m))
+			}
+		}
+		if n > 0 {
+			found++
+			delete(gc.noSeed, "tlb:"+r.Name)
+			g.Count("seed_from_real_block")
+		}
+	}
+	for _, c := range cells {
+		c.ResetCounters()
+	}
+}
+
+// genVmSeeds: hand-built VM tuples (no encoder exists for them), nested, as stack values and inside a VmStack
+func (gc *genCtx) genVmSeeds() {
+	g := gc.g
+	var entry func(depth int) func(i int) *boc.Cell
+	entry = func(depth int) func(i int) *boc.Cell {
+		return func(i int) *boc.Cell {
+			if depth < 2 && g.Rng.Intn(4) == 0 {
+				return tupleCell(g.Rng.Intn(5), entry(depth+1))
+			}
+			if g.Rng.Intn(5) == 0 {
+				c := boc.NewCell() // vm_stk_null
+				_ = c.WriteUint(0, 8)
+				return c
+			}
+			return tinyIntCell(i)
+		}
+	}
+	emit := func(name string, c *boc.Cell) {
+		limit := 300
+		rows := cellToRows(c, &limit)
+		if rows == nil {
+			return
+		}
+		g.Emit("go.tlb.one", name, "0", h.TableString(rows))
+		for k := 0; k < g.Scale(25, 400); k++ {
+			m := damage(rows, g.Rng.Intn(nDamageKinds), g.Rng.Intn(len(rows)), g.Rng.Intn(1024), g.Rng)
+			g.Emit("go.tlb.one", name, strconv.Itoa(g.Rng.Intn(4)), h.TableString(m))
+		}
+		g.Count("vm_tuple_seed")
+	}
+	for n := 0; n <= 6; n++ {
+		emit("tlb.VmStackValue", tupleCell(n, entry(0)))
+		// vm_stack#_ depth:(## 24) stack:(VmStackList depth); vm_stk_cons: rest:^(VmStackList n) tos:VmStackValue
+		st := boc.NewCell()
+		_ = st.WriteUint(uint64(n), 24)
+		cur := st
+		for i := 0; i < n; i++ {
+			rest := boc.NewCell()
+			_ = cur.AddRef(rest)
+			// tos follows the rest reference in the same cell
+			src := tupleCell(i%4, entry(1))
+			_ = cur.WriteBitString(src.RawBitString())
+			for _, r := range src.Refs() {
+				_ = cur.AddRef(r)
+			}
+			cur = rest
+		}
+		emit("tlb.VmStack", st)
+	}
+	delete(gc.noSeed, "tlb:tlb.VmStkTuple") // covered through VmStackValue (the tag byte precedes it)
+}
+
 var opCodeRe = regexp.MustCompile(`(?m)^\s*(\w+)MsgOpCode\s+MsgOpCode = (0x[0-9a-fA-F]+)`)
 
 func (gc *genCtx) genABI() {
@@ -933,6 +1079,20 @@ func (gc *genCtx) genTLB() {
 		g.Counters["tlb_inputs"] += nRand + nMut + nBomb
 		if has {
 			g.Counters["tlb_inputs"] += nEvery
+		}
+	}
+	var lacking []regType
+	for _, r := range tlbTargets {
+		if gc.noSeed["tlb:"+r.Name] {
+			lacking = append(lacking, r)
+		}
+	}
+	gc.genRealSeeds(lacking)
+	gc.genVmSeeds()
+	noSeed = 0
+	for k := range gc.noSeed {
+		if strings.HasPrefix(k, "tlb:") {
+			noSeed++
 		}
 	}
 	g.Counters["tlb_targets_without_valid_seed"] = noSeed
